@@ -45,7 +45,8 @@ def trace_validate(ctx, name, trace, what):
 
 
 WD_ACTIONS = ("Notice", "WindBegin", "H2Final", "H2Close", "WindEnd", "GuardRelease", "CompletionReturn", "ListenerEnd",
-              "Submit", "CompletionBegin", "OtherFinish", "ClientAckPing", "ClientOpens", "ClientReleases")
+              "Submit", "CompletionBegin", "OtherFinish", "ClientAckPing", "ClientOpens", "ClientReleases",
+              "ClientReadsMost", "IdleTimeout", "ResumeWind")
 
 
 def winddown_jobs(ctx):
@@ -66,7 +67,8 @@ def winddown_jobs(ctx):
     r = ctx.harness("c19w", ["--mode", "replay", "--vectors", gen["out"]], name="c19w.replay", env={"VERIF_ROOT": ROOT}, timeout=900)
     h = ctx.harness("c19w", ["--mode", "h3", "--vectors", gen["out"]], name="c19w.h3", env={"VERIF_ROOT": ROOT}, timeout=1200)
     if not ctx.violations:
-        need = ("behaviours_h2_speed", "behaviours_h2_ping", "behaviours_h2_tunnel", "behaviours_h1_speed", "behaviours_h1_ping",
+        need = ("behaviours_h2_speed", "behaviours_h2_ping", "behaviours_h2_tunnel", "behaviours_h1_speed", "behaviours_h1_ping", "behaviours_h1_rproxy",
+                "witness_notification_during_idle_wind_down", "witness_tail_held_by_the_codec",
                 "witness_in_flight_at_submission", "witness_stream_in_goaway_window", "witness_completion_waits_for_wind_down",
                 "witness_idle_session_told")
         for k in need:
@@ -84,6 +86,28 @@ def winddown_jobs(ctx):
             "h3_executions": h["counters"].get("h3_behaviours_replayed", 0),
             "witnesses": {k: v for src in (r, h) for k, v in src["counters"].items() if k.startswith("witness_") or k.startswith("behaviours_")},
             "samples": (r["samples"][:2] + h["samples"][:2])}
+
+
+def locks_job(ctx):
+    """QuicLocks.tla: the lock discipline of QuicSocket (session task, request tasks, multiplexer). One global order has no
+    deadlock; the order graceful_shutdown used to take must deadlock; the deadlocking schedule of the counterexample
+    (graceful_shutdown and write each past its first lock) is forced onto a real HTTP/3 session by sync-point hooks."""
+    ok = ctx.tlc("MCQuicLocks", "QuicLocks.fixedt.cfg" if ctx.thorough else "QuicLocks.fixed.cfg", workers=4, timeout=600, require_actions=("Call", "Step"))
+    ctx.spec_must_hold(ok)
+    was = ctx.tlc("MCQuicLocks", "QuicLocks.asitwas.cfg", workers=4, timeout=600, coverage=False)
+    if not (was["error"] and "NoDeadlock" in was["error"]):
+        raise ToolError("QuicLocks.asitwas.cfg (graceful_shutdown: quic_conn before h3_conn) must violate NoDeadlock: %s" % was["error"])
+    ctx.tlc_runs[-1]["error"] = None
+    ctx.tlc_runs[-1]["expected_counterexample"] = "NoDeadlock"
+    r = ctx.harness("c19w", ["--mode", "locks"], name="c19w.locks", env={"VERIF_ROOT": ROOT}, timeout=600)
+    c = r["counters"]
+    if c.get("locks_not_run", 0):
+        raise ToolError("the lock schedule could not be set up: %s" % "; ".join(r.get("notes", [])[:3]))
+    if not r["violations"] and not (c.get("locks_graceful_shutdown_parked", 0) == 1 and c.get("locks_schedule_finished", 0) == 1):
+        raise ToolError("vacuous lock schedule: graceful_shutdown was not parked between its two locks")
+    return {"states": ok["distinct"], "transitions": ok["states"],
+            "directed_schedule": "graceful_shutdown parked after its first lock, write released, graceful_shutdown released: both finished"
+                                 if c.get("locks_schedule_finished", 0) else "did not finish"}
 
 
 def repo_root():
@@ -239,6 +263,12 @@ def run(ctx):
     trans += wd["transitions"]
     behaviours += wd["behaviours"]
 
+    # ---- the lock discipline of the HTTP/3 socket under a shutdown (QuicLocks.tla) --------------
+    lk = locks_job(ctx)
+    states += lk["states"]
+    trans += lk["transitions"]
+    behaviours += 1
+
     # ---- endpoint/src/main.rs: the real process under SIGINT ---------------------------------
     ev_ = endpoint_job(ctx)
     if ev_:
@@ -269,6 +299,7 @@ def run(ctx):
         "states": states, "transitions": trans,
         "http1_flush_and_close": dj,
         "wind_down": wd,
+        "quic_socket_locks": lk,
         "traces_validated_against_impl": behaviours + traces,
         "replayed_behaviours": behaviours,
         "recorded_traces": traces,
